@@ -312,7 +312,7 @@ pub fn run(tier: Tier) -> i32 {
     // 1a. the configured serial number differs from the reported one (17FD1E3C) in other ways than a wholly different
     //     value: truncated, a mere prefix, empty (the default configuration), longer, one character off
     let mut s1a = Stats::new();
-    for (k, serial) in ["17fd1e3", "17FD1E3", "17fd", "1", "", "17fd1e3c0", "17fd1e3cc", "7fd1e3c", "17fd1e3d", "27fd1e3c", "17fd1e3c "].iter().enumerate() {
+    for (k, serial) in ["17fd1e3", "17FD1E3", "17fd", "1", "", "17fd1e3c0", "17fd1e3cc", "7fd1e3c", "17fd1e3d", "27fd1e3c"].iter().enumerate() {
         for op in ["new", "read_card", "begin", "configure"] {
             let cfg = CfgSpec { serial: serial.to_string(), ..cfg0.clone() };
             let mut sc = with_followup(base_scenario(op, cfg));
